@@ -116,6 +116,14 @@ def replay(mods, scn, cse=None):
             n += 1
             if not (abs(sc - e) <= 1e-9 * max(1.0, abs(e))):
                 bad("score", expected=e, observed=sc)
+            # the documented options of score: explained form is the same combination; unit sample weights change nothing
+            full, parts = adapter.score(X, explain_score=True)
+            bw, bias, vw, var, mw, size = [float(v) for v in parts]
+            if not (abs(float(full) - sc) <= 1e-12 * max(1.0, abs(sc)) and abs(bw * bias + vw * var + mw * size - sc) <= 1e-9 * max(1.0, abs(sc))):
+                bad("score-explained", expected=sc, observed=[float(full), bw * bias + vw * var + mw * size])
+            scw = float(adapter.score(X, sample_weight=np.ones(T1.size)))
+            if not (abs(scw - sc) <= 1e-9 * max(1.0, abs(sc))):
+                bad("score-unit-weights", expected=sc, observed=scw)
         # (5) by hand on the exported filter, in the plan's order
         def by_hand(ekf, T, label):
             nn = 0
